@@ -33,6 +33,13 @@ R1_TABLE = {
 }
 
 
+# class in which a table entry was reviewed (where the code is a method): keeps the entry attached when the class is
+# moved to another module unchanged
+R1_OWNER = {
+    ("frontend.backend", "list", "T = list(S)"): "BackendRegistryState",
+}
+
+
 def consumer_shape(kind, e, node):
     """structural description of how the set-typed expression `e` is consumed at `node`"""
     par = getattr(node, "_parent", None)
@@ -63,8 +70,17 @@ def consumer_shape(kind, e, node):
 
 def _table(f, kind, e, node=None):
     shape = consumer_shape(kind, e, node) if node is not None else None
+    top = f
+    while top.parent is not None:
+        top = top.parent
     for (suffix, k, sh), reason in R1_TABLE.items():
-        if f.module.name.endswith(suffix) and k == kind and sh == shape:
+        if k != kind or sh != shape:
+            continue
+        if f.module.name.endswith(suffix):
+            return reason
+        # the reviewed code moved as a whole: the entry follows the class it was reviewed in
+        owner = R1_OWNER.get((suffix, k, sh))
+        if owner is not None and top.cls is not None and top.cls.name == owner:
             return reason
     return None
 
